@@ -1,0 +1,70 @@
+//go:build verif
+
+package main
+
+import (
+	"encoding/json"
+	"os"
+	"sync"
+
+	"github.com/go-critic/go-critic/linter"
+)
+
+// verifHook, when non-nil, is called at every specification-level action of
+// the check command (see the verifGate call sites in check.go). A hook may
+// block: in-package schedule replay tests use that to drive the goroutines of
+// checkFile through a chosen interleaving.
+//
+// It is assigned before any goroutine is started and never afterwards;
+// the call sites read it without synchronization on purpose.
+var verifHook func(ev string, i int, s string)
+
+func verifGate(ev string, i int) {
+	if verifHook != nil {
+		verifHook(ev, i, "")
+	}
+}
+
+func verifNote(ev, s string) {
+	if verifHook != nil {
+		verifHook(ev, -1, s)
+	}
+}
+
+// With GOCRITIC_VERIF_TRACE=<file> the binary records one JSON object per
+// action (command-level gates and linter lifecycle events) into that file.
+func init() {
+	path := os.Getenv("GOCRITIC_VERIF_TRACE")
+	if path == "" {
+		return
+	}
+	f, err := os.OpenFile(path, os.O_CREATE|os.O_WRONLY|os.O_APPEND, 0o644)
+	if err != nil {
+		panic(err)
+	}
+	var mu sync.Mutex
+	seq := 0
+	enc := json.NewEncoder(f)
+	emit := func(m map[string]interface{}) {
+		mu.Lock()
+		seq++
+		m["seq"] = seq
+		if err := enc.Encode(m); err != nil {
+			panic(err)
+		}
+		mu.Unlock()
+	}
+	verifHook = func(ev string, i int, s string) {
+		emit(map[string]interface{}{"ev": ev, "i": i, "s": s})
+	}
+	linter.VerifRecorder = func(e *linter.VerifEvent) {
+		m := map[string]interface{}{"ev": e.Ev, "c": e.Checker, "file": e.Filename, "n": e.BufLen, "i": -1, "s": ""}
+		if e.Pkg != nil {
+			m["s"] = e.Pkg.Path()
+		}
+		if e.Err != nil {
+			m["s"] = e.Err.Error()
+		}
+		emit(m)
+	}
+}
